@@ -33,9 +33,15 @@ pub struct PeerShape {
     /// message is emitted (a symbolic number of emitted messages makes every later push costly).
     pub paused: bool,
     pub recent_active: bool,
+    /// Snapshot state: pending_snapshot = base + off
+    pub pending_snapshot_off: u64,
 }
 
 impl PeerShape {
+    pub const fn pending_snapshot(mut self, off: u64) -> PeerShape {
+        self.pending_snapshot_off = off;
+        self
+    }
     pub const fn paused(mut self) -> PeerShape {
         self.paused = true;
         self
@@ -45,13 +51,13 @@ impl PeerShape {
         self
     }
     pub const fn probe(id: u64, next_off: u64) -> PeerShape {
-        PeerShape { id, state: ProgressState::Probe, next_off, inflight: 0, matched_off: None, paused: false, recent_active: true }
+        PeerShape { id, state: ProgressState::Probe, next_off, inflight: 0, matched_off: None, paused: false, recent_active: true, pending_snapshot_off: 1 }
     }
     pub const fn replicate(id: u64, next_off: u64, inflight: usize) -> PeerShape {
-        PeerShape { id, state: ProgressState::Replicate, next_off, inflight, matched_off: None, paused: false, recent_active: true }
+        PeerShape { id, state: ProgressState::Replicate, next_off, inflight, matched_off: None, paused: false, recent_active: true, pending_snapshot_off: 1 }
     }
     pub const fn snapshot(id: u64, next_off: u64) -> PeerShape {
-        PeerShape { id, state: ProgressState::Snapshot, next_off, inflight: 0, matched_off: None, paused: false, recent_active: true }
+        PeerShape { id, state: ProgressState::Snapshot, next_off, inflight: 0, matched_off: None, paused: false, recent_active: true, pending_snapshot_off: 1 }
     }
     pub const fn matched(mut self, off: u64) -> PeerShape {
         self.matched_off = Some(off);
@@ -583,8 +589,8 @@ fn leader_progress(s: &mut Src, sh: &Shape, r: &mut Raft<VStore>, g: &Ghost) {
                     pr.ins = ins;
                 }
                 ProgressState::Snapshot => {
-                    pr.pending_snapshot = s.u64();
-                    vassume!(pr.pending_snapshot >= 1 && pr.pending_snapshot <= last);
+                    pr.pending_snapshot = sh.base + ps.pending_snapshot_off;
+                    assert!(pr.pending_snapshot >= 1 && pr.pending_snapshot <= last, "shape: pending_snapshot");
                 }
             }
         }
@@ -606,6 +612,26 @@ pub fn assert_li(r: &Raft<VStore>) {
     let mut i = 0;
     while i < log.unstable.entries.len() {
         assert!(log.unstable.entries[i].index == log.unstable.offset + i as u64, "LI: unstable not contiguous");
+        i += 1;
+    }
+}
+
+/// NI for a node that is not leader (asserted on post-states): every role change goes through
+/// `reset`, which forgets what peers had acknowledged and re-bases the own progress.
+pub fn assert_progress_reset(r: &Raft<VStore>, sh: &Shape) {
+    let (ids, n) = sh.ids();
+    let last = r.raft_log.last_index();
+    let mut i = 0;
+    while i < n {
+        if let Some(p) = r.prs().get(ids[i]) {
+            if ids[i] == ME {
+                assert!(p.matched == r.raft_log.persisted, "reset: own matched must be the persisted index");
+            } else {
+                assert!(p.matched == 0, "reset: acknowledgements of an earlier leadership survived the role change");
+            }
+            assert!(p.next_idx == last + 1 && p.ins.count() == 0 && !p.paused && p.pending_snapshot == 0);
+            assert!(p.state == ProgressState::Probe);
+        }
         i += 1;
     }
 }
